@@ -35,7 +35,7 @@ def obligations(ctx):
     obs = ctx.verify(FUNCTIONS)
     keep = [o for o in obs if o.meta.get("function") != "AssemblyManager.assemble"
             or any(k in o.name for k in ("citation", "reference-list", "cover"))]
-    return keep + lemmas(ctx) + pattern_table(ctx)
+    return keep + ctx.part(lemmas) + ctx.part(pattern_table)
 
 
 def pattern_table(ctx):
